@@ -144,10 +144,26 @@ def rule_W1_W3(facts, rep):
         c = R.res(v)
         # offset = offset_to(buf, D), D = &piece[written..]   (each of them bound to a local or written in place)
         ok_off = False
+        inline_sub = False
+
+        def pointee(e):
+            """`X.as_ptr() [as usize]`, possibly through locals -> X"""
+            e = hir.peel(R.res(hir.peel(e)))
+            while e.get("k") == "cast":
+                e = hir.peel(R.res(hir.peel(e["e"])))
+            if hir.is_call(e, "as_ptr") and len(e["args"]) == 1:
+                return hir.peel(R.res(hir.peel(e["args"][0])))
+            return None
         if hir.is_call(c, M + "offset_to") and hir.is_local(c["args"][0], "buf"):
             ix = hir.peel(R.res(hir.peel(c["args"][1])))
             ok_off = (ix.get("k") == "index" and hir.is_local(ix["e"], w.piece) and written is not None
                       and _is_range(ix["i"], "RangeFrom", "start", written))
+        elif c.get("k") == "bin" and c.get("op") == "Sub" and "callee" not in c and pointee(c["l"]) is not None and pointee(c["r"]) is not None:
+            # the helper written in place: piece[written..].as_ptr() as usize - buf.as_ptr() as usize
+            ix, base = pointee(c["l"]), pointee(c["r"])
+            ok_off = (ix.get("k") == "index" and hir.is_local(ix["e"], w.piece) and written is not None
+                      and _is_range(ix["i"], "RangeFrom", "start", written) and hir.is_local(base, "buf"))
+            inline_sub = True
         elif v.get("k") != "local" and not hir.is_call(c, M + "offset_to"):
             rep.bad("W3", b["path"], "Ok(count)-not-an-offset", f"write returns Ok({hirpp.expr(v)}): not buf.len() and not an offset into buf", loc(b, n))
             continue
@@ -212,6 +228,10 @@ def rule_W1_W3(facts, rep):
         rep.check(g, "W1", b["path"], "short-write-test", "the short-write branch is taken exactly when piece.len() != written", loc(b, ret))
     rep.check(n_short == 1, "W3", b["path"], "one-short-count", f"{n_short} partial-count results", loc(b))
     # offset_to is pointer subtraction subslice - total
+    if not facts.crate(CRATE)["_bodies"].get(M + "offset_to") and n_short == 1 and inline_sub:
+        rep.ok("W3", b["path"], "subslice-minus-total", "the offset is computed in place: unwritten.as_ptr() - buf.as_ptr()")
+        _vectored(facts, rep)
+        return
     o = facts.body(CRATE, M + "offset_to")
     rep.fn(o["path"])
     st = hir.stmts_of(o["hir"])
@@ -229,6 +249,10 @@ def rule_W1_W3(facts, rep):
             return False
         ok = ptr_of(tail["l"], o["params"][1]["name"]) and ptr_of(tail["r"], o["params"][0]["name"])
     rep.check(ok, "W3", o["path"], "subslice-minus-total", "offset_to(total, sub) = sub.as_ptr() - total.as_ptr()", loc(o))
+    _vectored(facts, rep)
+
+
+def _vectored(facts, rep):
     # write_vectored forwards exactly one of the caller's buffers to write
     v = facts.body(CRATE, "<anstream::strip::StripStream<S> as std::io::Write>::write_vectored")
     rep.fn(v["path"])
